@@ -133,9 +133,23 @@ class C09(Prop):
         G = np.zeros((0, n)); h = np.zeros(0)
         if case["l1"] is not None:
             G = np.vstack([np.ones(n), -np.ones(n)]); h = np.array([case["l1"] + case["l1_eps"], -(case["l1"] - case["l1_eps"])])
-        lam, ys, ss = dualcert.best_cert(2 * d * x, x, sys["lb"], sys["ub"], G, h, [(M, e, float(rho))])
+        # reference point (untrusted): an accurate optimum of the same programme; the duality bound is evaluated there
+        import cvxpy as cp
+        x0 = x; ref = None
+        try:
+            z = cp.Variable(n)
+            cons = [z >= sys["lb"], z <= sys["ub"], cp.norm2(M @ z - e) <= float(rho)]
+            if case["l1"] is not None:
+                cons += [cp.sum(z) <= case["l1"] + case["l1_eps"], cp.sum(z) >= case["l1"] - case["l1_eps"]]
+            pr = cp.Problem(cp.Minimize(d @ cp.square(z)), cons)
+            pr.solve(solver="CLARABEL", tol_gap_abs=1e-11, tol_gap_rel=1e-11, tol_feas=1e-11)
+            if pr.status in ("optimal", "optimal_inaccurate") and z.value is not None:
+                x0 = np.clip(np.asarray(z.value, dtype=float), sys["lb"], sys["ub"]); ref = float(pr.value)
+        except Exception:  # noqa
+            pass
+        lam, ys, ss = dualcert.best_cert(2 * d * x0, x0, sys["lb"], sys["ub"], G, h, [(M, e, float(rho))])
         obj = float(d @ (x * x))
-        case["_p"] = dict(sys=sys, M=M, e=e, rho=rho, best=float(best), E=E, d=d, E_in=E_in, cert=(lam, ys, ss), obj=obj, G=G, h=h, exact=exact, Apn=Apn, bpn=bpn)
+        case["_p"] = dict(x0=x0, ref=ref, sys=sys, M=M, e=e, rho=rho, best=float(best), E=E, d=d, E_in=E_in, cert=(lam, ys, ss), obj=obj, G=G, h=h, exact=exact, Apn=Apn, bpn=bpn)
         return case["_p"]
 
     def emit(self, case, out):
@@ -144,10 +158,10 @@ class C09(Prop):
         p = self.prep(case, out); sys = p["sys"]; m = sys["m"]
         l1 = "None" if case["l1"] is None else "(Some (%s, %s))" % (q(case["l1"]), q(case["l1_eps"]))
         Eps = "None" if p["E_in"] is None else "(Some %s)" % qm(p["E_in"].tolist())
-        return "(Fits.GV (Fits.Build_vcase %s %s %s %s %s %s %s %s %s %s %s %s %s %s %s %s %s))" % (
+        return "(Fits.GV (Fits.Build_vcase %s %s %s %s %s %s %s %s %s %s %s %s %s %s %s %s %s %s))" % (
             kmat_lit(sys["K"], m), qm(sys["A"].tolist()), cnat(sys["n"]), qv(sys["lb"].tolist()), qv(sys["ub"].tolist()),
             qv(base_vec(sys["baseline"], m).tolist()), qv(case["w"]), qv(case["b"]), Eps, q(p["rho"]), l1,
-            qv(out["X"]), qv(out["Bpred"]), qv(out["Bvar"]), dualcert.cert_lit(*p["cert"]), q(1e-4 * max(1.0, p["obj"])), q(1e-4))
+            qv(out["X"]), qv(p["x0"].tolist()), qv(out["Bpred"]), qv(out["Bvar"]), dualcert.cert_lit(*p["cert"]), q(1e-4 * max(1.0, p["obj"])), q(1e-4))
 
     def spec_violation(self, case, out):
         if "error" in out:
@@ -166,14 +180,8 @@ class C09(Prop):
             return {"what": "reported capture variance is not the variance model (%s) applied to the returned intensities" % case["ek"], "class": "bvar:" + case["ek"]}
         if np.max(np.abs(p["Apn"] @ x + p["bpn"] - np.asarray(out["Bpred"]))) > 1e-8:
             return {"what": "B_pred is not the model capture of the returned intensities", "class": "prediction"}
-        z = cp.Variable(n)
-        cons = [z >= sys["lb"], z <= sys["ub"], cp.norm2(p["M"] @ z - p["e"]) <= float(p["rho"])]
-        if case["l1"] is not None:
-            cons += [cp.sum(z) <= case["l1"] + case["l1_eps"], cp.sum(z) >= case["l1"] - case["l1_eps"]]
-        pr = cp.Problem(cp.Minimize(p["d"] @ cp.square(z)), cons)
-        pr.solve(solver="CLARABEL", tol_gap_abs=1e-11, tol_gap_rel=1e-11, tol_feas=1e-11)
-        if pr.status in ("optimal", "optimal_inaccurate") and p["obj"] > pr.value * (1 + 1e-4) + 1e-6:
-            return {"what": "summed capture variance %.9g but %s (in bounds, within the error budget) achieves %.9g" % (p["obj"], np.asarray(z.value).round(6).tolist(), pr.value),
+        if p["ref"] is not None and p["obj"] > p["ref"] * (1 + 1e-4) + 1e-6:
+            return {"what": "summed capture variance %.9g but %s (in bounds, within the error budget) achieves %.9g" % (p["obj"], p["x0"].round(6).tolist(), p["ref"]),
                     "class": "variance-not-minimal:" + case["ek"]}
         xo = np.asarray(out["X_ordinary"])
         if case["l1"] is None and p["obj"] > float(p["d"] @ (xo * xo)) * (1 + 1e-4) + 1e-6:
